@@ -550,8 +550,9 @@ def check_faulted(sc, ref, res, fault, violate):
             before_output_begins = False
             break
         idx = evs.index(fk)
-        started = any(e[0] == ("write" if out_class == "stdout" else "open_w") and e[1] == out_class for e in evs[:idx])
-        torn_here = fk[0] == "write" and fk[1] == out_class and fkind == "torn"
+        started = any(e[0] in (("write", "rawwrite") if out_class == "stdout" else ("open_w", "rename")) and e[1] == out_class
+                      for e in evs[:idx])
+        torn_here = fk[0] in ("write", "rawwrite") and fk[1] == out_class and fkind in ("torn", "short")
         if started or torn_here:
             before_output_begins = False
             break
@@ -835,7 +836,7 @@ def execute_e2e(trace, scratch):
         faults, total = _enumerate_faults(ref["events"], sc, rng, trace.get("fault_budget", 6), None)
         kills = [f for f in faults if f["kind"] == "kill"]
         if not kills:
-            cand = [e for e in ref["events"] if e[0] in ("write", "open_w", "close", "phase")]
+            cand = [e for e in ref["events"] if e[0] in ("write", "rawwrite", "rename", "open_w", "close", "phase")]
             if cand:
                 faults.append({"at": list(rng.choice(cand)), "kind": "kill"})
         stat("single_faults_possible", total)
